@@ -57,6 +57,30 @@ def run(tier, seed):
         tot = sum(len(c) for c in cons)
         ops = ''.join(rnd.choice('NPPP') for _ in range(tot + rnd.randint(0, 4))) + 'PP'
         scripts.append(cons_text(cons) + '\t' + ops)
+    # an event of several RRULEs is a merge of the streams of its rules: the constituents are what each rule delivers in an event of
+    # its own (recorded), the merge is the stream of the event with all the rules.  Zoned, UTC and floating DTSTARTs, date-time
+    # UNTILs at and around the last occurrence (a UTC value for zoned events), COUNTs, sub-daily steps; all inside January 2030
+    nrule = 6000 if tier == 'thorough' else 500
+    for _ in range(nrule):
+        zn, off = rnd.choice([(None, 0), ('Z', 0), ('Europe/Berlin', 1), ('America/New_York', -5), ('Asia/Tokyo', 9), ('Australia/Sydney', 11), ('Asia/Kolkata', 5.5)])
+        d0 = rnd.randint(3, 9); h0 = rnd.randint(0, 23); m0 = rnd.choice([0, 0, 30, 59])
+        dtl = ('DTSTART;TZID=%s:203001%02dT%02d%02d00' % (zn, d0, h0, m0)) if zn not in (None, 'Z') else 'DTSTART:203001%02dT%02d%02d00%s' % (d0, h0, m0, zn or '')
+        rules = []
+        for _k in range(rnd.choice([2, 2, 3, 4])):
+            kind = rnd.random()
+            if kind < 0.3: body, step, n = 'FREQ=DAILY', 86400, rnd.randint(1, 12)
+            elif kind < 0.55: iv = rnd.choice([1, 2, 3, 5, 7, 12]); body, step, n = 'FREQ=HOURLY;INTERVAL=%d' % iv, 3600 * iv, rnd.randint(1, 70)
+            elif kind < 0.7: iv = rnd.choice([20, 45, 90, 600]); body, step, n = 'FREQ=MINUTELY;INTERVAL=%d' % iv, 60 * iv, rnd.randint(1, 130)
+            elif kind < 0.85: body, step, n = 'FREQ=WEEKLY', 7 * 86400, rnd.randint(1, 3)
+            else: iv = rnd.choice([2, 3]); body, step, n = 'FREQ=DAILY;INTERVAL=%d' % iv, 86400 * iv, rnd.randint(1, 6)
+            if rnd.random() < 0.3: rules.append(body + ';COUNT=%d' % n); continue
+            # UNTIL: the n-th occurrence (local d0 h0:m0 + (n-1) steps) as a UTC value for zoned events, give or take
+            last = (d0 - 1) * 86400 + h0 * 3600 + m0 * 60 + (n - 1) * step
+            u = last - (int(off * 3600) if zn not in (None,) else 0) + rnd.choice([0, 0, 0, -1, 1, -60, 60, -3600, 3600, 1800, -1800, step // 2])
+            u = max(u, 2 * 86400); u = min(u, 27 * 86400)
+            rules.append(body + ';UNTIL=203001%02dT%02d%02d%02d%s' % (1 + u // 86400, u % 86400 // 3600, u % 3600 // 60, u % 60, '' if zn is None else 'Z'))
+        ops = ''.join(rnd.choice('NPPP') for _ in range(rnd.choice([40, 150, 260]))) + 'PP'
+        scripts.append('R\t' + dtl + '\t' + '|'.join(rules) + '\t' + ops)
     trace = f'{wd}/mux.ndjson'
     p = subprocess.run([drv], input='\n'.join(scripts) + '\n', capture_output=True, text=True, timeout=1800)
     outl = [l for l in p.stdout.split('\n') if l]
